@@ -442,3 +442,28 @@ Print Assumptions decoded_size_partial.
 
 Example decoded_size_partial_hyp_met : (0 <= 73662464)%Z /\ bytes_read "" 73662464 0 = 73662464%Z.
 Proof. split; [discriminate|reflexivity]. Qed.
+
+(* ---- the scripted-decoder correspondence (harness pipefuzz) ----------------------------------- *)
+
+(* What the model expects an insert service to receive in a pipefuzz case -- computed by the interpreter over the
+   regenerated onSpan, resp. the profile size rule -- is rectangular and of a known type, for EVERY script: when the
+   check finds observed = expected on the generated scripts, the observed batches satisfy the property's oracle
+   for the reason proved here, not by coincidence. *)
+Theorem pipe_model_satisfies_spec : forall c,
+  forallb (fun ob => all_equal (snd ob) && (fst ob <? 3)%Z)
+          (snd (pipe_expected gen_on_span_cols gen_spans_fields gen_attrs_fields c)) = true.
+Proof.
+  apply (expected_batches_rect gen_on_span_cols gen_spans_fields gen_attrs_fields gen_spans_consumed gen_attrs_consumed).
+  vm_compute. reflexivity.
+Qed.
+Print Assumptions pipe_model_satisfies_spec.
+
+(* a non-trivial script: flush after three big spans, then a span with fewer values than keys: 5xx, one batch of three
+   spans / six attribute rows was pushed, nothing of the torn batch *)
+Example pipe_expected_example :
+  let big := {| se_tid := 16; se_sid := 8; se_keys := 2; se_vals := 2; se_bytes := 400000 |} in
+  let torn := {| se_tid := 16; se_sid := 8; se_keys := 3; se_vals := 1; se_bytes := 100 |} in
+  pipe_expected gen_on_span_cols gen_spans_fields gen_attrs_fields
+    {| pc_id := 0; pc_spans := Some [big; big; big; torn]; pc_tags := []; pc_end := PendNil; pc_outcome := O5xx; pc_batches := [] |}
+  = (C5xx, [(0%Z, repeat 3%N 9); (1%Z, repeat 6%N 7)]).
+Proof. vm_compute. reflexivity. Qed.
